@@ -293,7 +293,19 @@ def run(run_, ctx):
     if len(fmtroot) == 1:
         root = fmtroot[0]
         local = lambda g: g.canon in local_canons
-        pol = lambda g, ev: local(g) and g.canon != root.canon
+        # the formatter may be split over several functions that all take (node, buffer, ..): one that is handed the *same* node is part of
+        # this node's rendering (analysed in place); handed another node it is the recursion into a nested schema (stays a call, like a call
+        # of the root itself)
+        fam = set(g.canon for g in fns if plain(g) and sig(g)[:2] == ["&schema::owned::OwnedDataModelType", "&mut std::string::String"])
+        node0 = ("param", 1, root.locals[1]["ty"])
+
+        def pol(g, ev):
+            if not local(g) or g.canon == root.canon:
+                return False
+            if g.canon in fam:
+                a0 = norm(ev["args"][0]) if ev.get("args") else None
+                return a0 == node0 or a0 == ("init", ("P", node0)) or a0 == ("ref", ("P", node0))
+            return True
         dmt = [v["name"] for v in sc.adts["postcard_schema::schema::owned::OwnedDataModelType"]["variants"]]
         st_ok, en_ok, fld, var_inline = [], [], [], []
         APPEND = ("add_assign", "push_str")
